@@ -106,7 +106,8 @@ def run(tier):
         len(recs), len(TOKENS), ", length 4 over 24 tokens" if thorough else "", muts, len(TEMPLATES), len(accepted), nacc_ok, extra_accept))
     # ---------------- (b) layout independence
     progs = []
-    layouts = [("canon", "\n"), ("shift", "\n"), ("shift", "\r\n"), ("shift", "\r"), ("spread", "\n"), ("spread", "\r\n"), ("oneline", "\n"), ("tokline", "\n"), ("tokline", "\r\n")]
+    layouts = [("canon", "\n"), ("shift", "\n"), ("shift", "\r\n"), ("shift", "\r"), ("spread", "\n"), ("spread", "\r\n"), ("oneline", "\n"), ("tokline", "\n"), ("tokline", "\r\n"),
+               ("cmtline", "\n"), ("cmtline", "\r\n")]
     nprog = 260 if thorough else 50
 
     def add(fam, p, root, layout, eol, lrng):
@@ -120,7 +121,7 @@ def run(tier):
             add("rand", g.p, root, layout, eol, random.Random(i * 31 + len(layout)))
     verd2, cov, allv, allo, st2 = lsem.run_families(
         PROP, tier, progs,
-        "(b) every program rendered under 9 layouts (canonical; blank/comment lines of every form; line breaks inside statements; everything on one line; one token per line) x {LF, CRLF, CR}, optional semicolons and grouping-neutral parentheses, each validated against LuaSem; (a) token sequences classified by the Grammar spec; (c) loader robustness inputs",
+        "(b) every program rendered under 11 layouts (canonical; blank/comment lines of every form; line breaks inside statements; everything on one line; one token per line; long comments between the tokens of a line) x {LF, CRLF, CR}, optional semicolons and grouping-neutral parentheses, each validated against LuaSem; (a) token sequences classified by the Grammar spec; (c) loader robustness inputs",
         [], t0, max_steps=30000)
     for key, what, path in verd2.violations:
         verd.violations.append((key, what, path))
@@ -171,7 +172,25 @@ def run(tier):
     for w in wrappers:
         for b in bodies:
             cases.append((w.replace("%s", b)).encode())
+    # constant expressions (the compiler folds them while loading): every operator over boundary
+    # literals; all of them are valid chunks, so the loader must return a function
+    lits = ["0", "-0", "1", "-1", "2", "0.5", "7", "1e308", "1e-320", "2^53", "2^1024", "(3-3)", "(0/0)", "(1/0)", "(-1/0)", "0x7fffffff", "0xffffffffffff",
+            "1e5000", "nil", "true", "false", '"a"', '"10"', '""', "{}", "x"]
+    binops = ["+", "-", "*", "/", "%", "^", "..", "==", "~=", "<", "<=", ">", ">=", "and", "or"]
+    valid = []
+    for a, op, b in itertools.product(lits, binops, lits):
+        valid.append("return %s %s %s" % (a, op, b))
+    for a, op, b in itertools.product(lits[:17], ["%", "/", "^", "*", "-"], lits[:17]):
+        valid += ["local x = %s %s %s" % (a, op, b), "if %s %s %s then end" % (a, op, b), "do return end local dead = %s %s %s" % (a, op, b),
+                  "return (%s %s %s) %s 2, -(%s %s %s)" % (a, op, b, op, a, op, b), "return {[1] = %s %s %s}" % (a, op, b), "while %s %s %s do break end" % (a, op, b)]
+    for a in lits:
+        valid += ["return -%s" % a, "return not %s" % a, "return #%s" % a, "return - - %s" % a, "return not not %s" % a]
+    nvalid0 = len(cases)
+    cases += [v.encode() for v in valid]
     rob = load_all(list(enumerate(cases, 1)), "rob", timeout=2400)
+    for i in range(nvalid0 + 1, len(cases) + 1):
+        if not robust_key(rob[i]) and rob[i][1] != "ok":
+            verd.candidate("C08:valid-constant-expression-rejected", "valid chunk %r is rejected: %s" % (cases[i - 1].decode(), rob[i]), {"text": cases[i - 1].decode(), "tokens": ["valid"], "outcome": rob[i]})
     nrob = {"ok": 0, "syntax": 0}
     for i, b in enumerate(cases, 1):
         o = rob[i]
@@ -180,7 +199,7 @@ def run(tier):
             verd.candidate("C08:load:%s" % k, "loading %d bytes %r...: %s" % (len(b), b[:60], o), {"b64": base64.b64encode(b[:4000]).decode(), "len": len(b), "outcome": o})
         else:
             nrob[o[1]] += 1
-    vlib.log("[C08] robustness: %d inputs (truncation at every byte offset of %d programs, byte mutations, random bytes, token soup, deep nesting): %s" % (len(cases), len(srcs), json.dumps(nrob)))
+    vlib.log("[C08] robustness: %d inputs (truncation at every byte offset of %d programs, byte mutations, random bytes, token soup, deep nesting, %d constant-expression chunks): %s" % (len(cases), len(srcs), len(valid), json.dumps(nrob)))
     rc = verd.finish()
     cov["states"], cov["transitions"] = stats["states"], stats["transitions"]
     cov["evaluations"] += len(recs) + len(cases)
